@@ -11,6 +11,7 @@ package main
 import "strings"
 
 type preinst struct {
+	known map[string]*Term // asserted quantified facts (and their top-level conjuncts) -> the guard they hold under
 	tiny bool
 	focusSyms []*Term
 	pairs     bool // also instantiate two-variable quantifiers (second attempt)
@@ -92,6 +93,22 @@ func collectCandidates(all []*Term, focus []*Term) *preinst {
 						}
 					}
 				}
+				// bounds of element-set / join terms: sidsetf(row, off, off+n) suggests n and n-1
+				if x.IsSym && (x.Op == "sidsetf" || x.Op == "joinspf") && isGround(x) {
+					for _, b := range x.Args[1:3] {
+						if !b.IsSym && b.Op == "+" && len(b.Args) == 2 {
+							n := b.Args[1]
+							if _, isC := n.IntVal(); !isC {
+								addInt(n)
+							}
+							if !n.IsSym && n.Op == "+" && len(n.Args) == 2 {
+								if c, isC := n.Args[1].IntVal(); isC && c == 1 {
+									addInt(n.Args[0])
+								}
+							}
+						}
+					}
+				}
 				// index expressions of array reads: (select a (+ off i)) suggests i
 				if !x.IsSym && x.Op == "select" && len(x.Args) == 2 && x.Args[1].S == SInt && isGround(x.Args[1]) {
 					idx := x.Args[1]
@@ -133,6 +150,10 @@ func collectCandidates(all []*Term, focus []*Term) *preinst {
 			if len(x.Args) == 0 && x.S == SInt && (strings.HasPrefix(x.Op, "ex.") || strings.HasPrefix(x.Op, "sk.")) {
 				addInt(x)
 			}
+			// the witness of a non-empty set
+			if x.Op == "card" && len(x.Args) == 1 && isGround(x) {
+				addInt(bi("cardwit", SInt, x.Args[0]))
+			}
 			if len(x.Args) > 0 && strings.HasPrefix(x.Op, "sf.") && isGround(x) {
 				p.apps[x.Op] = append(p.apps[x.Op], x.Args)
 				if x.S == SInt {
@@ -147,6 +168,44 @@ func collectCandidates(all []*Term, focus []*Term) *preinst {
 func (p *preinst) emit(ctx []*Term, t *Term) {
 	if len(p.out) >= p.limit {
 		return
+	}
+	// quantified guards that are themselves asserted hypotheses are known to hold
+	if len(ctx) > 0 && len(p.known) > 0 {
+		var c2 []*Term
+		for _, c := range ctx {
+			if hasQuantStrict(c) {
+				if g, ok := p.known[c.String()]; ok {
+					if g != True {
+						c2 = append(c2, g)
+					}
+					continue
+				}
+			}
+			if !c.IsSym && c.Op == "and" && hasQuantStrict(c) {
+				var keep []*Term
+				for _, cc := range c.Args {
+					if hasQuantStrict(cc) {
+						if g, ok := p.known[cc.String()]; ok {
+							if g != True {
+								keep = append(keep, g)
+							}
+							continue
+						}
+					}
+					keep = append(keep, cc)
+				}
+				c = And(keep...)
+			}
+			c2 = append(c2, c)
+		}
+		ctx = c2
+	}
+	// a guard that still contains a quantifier cannot be discharged by the
+	// instance-only queries: such an instance only makes them harder
+	for _, c := range ctx {
+		if hasQuantStrict(c) {
+			return
+		}
 	}
 	f := Imp(And(ctx...), t)
 	if f == True {
@@ -310,6 +369,29 @@ func preInstantiate(D *Decls, asserts []*Term, focus []*Term, withPairs bool, hi
 		p.limit = 350
 	}
 	p.pairs = withPairs
+	p.known = map[string]*Term{}
+	var addKnown func(t *Term, guard *Term, depth int)
+	addKnown = func(t *Term, guard *Term, depth int) {
+		if !hasQuantStrict(t) || depth > 3 {
+			return
+		}
+		if !t.IsSym && t.Op == "and" {
+			for _, a := range t.Args {
+				addKnown(a, guard, depth+1)
+			}
+			return
+		}
+		if !t.IsSym && t.Op == "=>" && !hasQuantStrict(t.Args[0]) {
+			addKnown(t.Args[1], And(guard, t.Args[0]), depth+1)
+			return
+		}
+		if _, dup := p.known[t.String()]; !dup {
+			p.known[t.String()] = guard
+		}
+	}
+	for _, a := range all {
+		addKnown(a, True, 0)
+	}
 	// pointer-like constants the goal itself mentions (pair candidates)
 	fs := map[string]bool{}
 	for _, f := range focus {
@@ -480,7 +562,30 @@ func (p *preinst) engineInstances(all []*Term) {
 			}
 		})
 	}
-	_ = sids // sid(a) = sid(b) is streq(a,b) by definition; byte-level links are added per streq atom
+	// sid(a) = sid(b) is streq(a,b) by definition; byte-level links are added per
+	// streq atom, and here for every identity compared with a short literal:
+	// equal length and bytes <=> equal identity
+	for _, l := range sids {
+		lt := l.Args[0]
+		if lt.IsSym || lt.Op != "mkstr" || len(lt.Args) != 3 || !strings.HasPrefix(lt.Args[0].Op, "lit!") {
+			continue
+		}
+		n, ok := lt.Args[2].IntVal()
+		if !ok || n > 8 {
+			continue
+		}
+		for _, x := range sids {
+			if x == l {
+				continue
+			}
+			t := x.Args[0]
+			conj := []*Term{Eq(SLen(t), IntLit(n))}
+			for j := int64(0); j < n; j++ {
+				conj = append(conj, Eq(SAt(t, IntLit(j)), SAt(lt, IntLit(j))))
+			}
+			p.emit(nil, Eq(Eq(x, l), And(conj...)))
+		}
+	}
 	// sidsetf / joinspf applications (sets and joins over []string rows)
 	var ssets, joins []*Term
 	ssSeen := map[string]bool{}
@@ -509,6 +614,9 @@ func (p *preinst) engineInstances(all []*Term) {
 			w := sidwit(s1, c)
 			p.emit(nil, Imp(Select(s1, c), And(Le(lo, w), Lt(w, hi), Eq(Sid(Select(r, w)), c))))
 		}
+		// the last element belongs to the set
+		last := Sub(hi, IntLit(1))
+		p.emit(nil, Imp(Le(lo, last), Select(s1, Sid(Select(r, last)))))
 		// a range of literal length: unfolded
 		if d, ok := Sub(hi, lo).IntVal(); ok && d >= 0 && d <= 4 {
 			for _, c := range p.ints {
@@ -520,13 +628,47 @@ func (p *preinst) engineInstances(all []*Term) {
 			}
 		}
 		for _, s2 := range ssets {
-			if s1 == s2 || s1.Args[0].String() != s2.Args[0].String() || s1.Args[1].String() != s2.Args[1].String() {
+			if s1 == s2 || s1.Args[1].String() != s2.Args[1].String() {
 				continue
 			}
 			h2 := s2.Args[2]
+			sameRow := Eq(s1.Args[0], s2.Args[0])
 			for _, c := range p.ints {
-				p.emit(nil, Imp(And(Eq(h2, Add(hi, IntLit(1))), Le(lo, hi)),
+				p.emit(nil, Imp(And(sameRow, Eq(h2, Add(hi, IntLit(1))), Le(lo, hi)),
 					Eq(Select(s2, c), Or(Select(s1, c), Eq(Sid(Select(r, hi)), c)))))
+			}
+		}
+	}
+	// spec functions of one string are functions of its contents
+	{
+		type app struct{ t, arg *Term }
+		byFn := map[string][]app{}
+		seenApp := map[string]bool{}
+		var names []string
+		for _, t := range all {
+			t.Walk(func(x *Term) {
+				if x.IsSym && len(x.Args) == 1 && strings.HasPrefix(x.Op, "sf.") && x.Args[0].S == SStr && isGroundTerm(x) {
+					if k := x.String(); !seenApp[k] && len(byFn[x.Op]) < 6 {
+						seenApp[k] = true
+						if len(byFn[x.Op]) == 0 {
+							names = append(names, x.Op)
+						}
+						byFn[x.Op] = append(byFn[x.Op], app{x, x.Args[0]})
+					}
+				}
+			})
+		}
+		for _, n := range names {
+			as := byFn[n]
+			for i := 0; i < len(as); i++ {
+				for j := i + 1; j < len(as); j++ {
+					same := Eq(Sid(as[i].arg), Sid(as[j].arg))
+					if as[i].t.S == SStr {
+						p.emit(nil, Imp(same, And(Eq(Sid(as[i].t), Sid(as[j].t)), Eq(SLen(as[i].t), SLen(as[j].t)))))
+					} else {
+						p.emit(nil, Imp(same, Eq(as[i].t, as[j].t)))
+					}
+				}
 			}
 		}
 	}
@@ -558,7 +700,8 @@ func (p *preinst) engineInstances(all []*Term) {
 			case "sconcat":
 				seen[k] = true
 				a, b := x.Args[0], x.Args[1]
-				if hasJoin {
+				if hasJoin || len(sids) > 0 {
+					// concatenation is a function of contents
 					p.emit(nil, Eq(Sid(x), catid(Sid(a), Sid(b))))
 				}
 				p.emit(nil, And(Eq(SOff(x), IntLit(0)), Eq(SLen(x), Add(SLen(a), SLen(b)))))
@@ -570,6 +713,23 @@ func (p *preinst) engineInstances(all []*Term) {
 				if n, ok := SLen(b).IntVal(); ok && n <= 8 {
 					for j := int64(0); j < n; j++ {
 						p.emit(nil, Eq(Select(SArr(x), Add(SLen(a), IntLit(j))), SAt(b, IntLit(j))))
+					}
+				}
+			case "card":
+				seen[k] = true
+				d := x.Args[0]
+				p.emit(nil, Ge(x, IntLit(0)))
+				p.emit(nil, Imp(Gt(x, IntLit(0)), Select(d, bi("cardwit", SInt, d))))
+				for _, c := range p.ints {
+					p.emit(nil, Imp(Select(d, c), Gt(x, IntLit(0))))
+				}
+				if !d.IsSym && d.Op == "store" && len(d.Args) == 3 {
+					d0, kk, v := d.Args[0], d.Args[1], d.Args[2]
+					c0 := App("card", SInt, d0)
+					if v == True {
+						p.emit(nil, Eq(x, Ite(Select(d0, kk), c0, Add(c0, IntLit(1)))))
+					} else if v == False {
+						p.emit(nil, Eq(x, Ite(Select(d0, kk), Sub(c0, IntLit(1)), c0)))
 					}
 				}
 			case "chr":
